@@ -7,6 +7,7 @@ import Kvass.Proofs.CoordKeep
 import Kvass.Proofs.CoordRemoval
 import Kvass.Proofs.LoopHandover
 import Kvass.Proofs.CoordMove
+import Kvass.Proofs.LoopFaulty
 
 namespace Kvass.Props.C05
 open Kvass Kvass.Coord Kvass.Spec
@@ -77,5 +78,58 @@ theorem C05_loop_handover_rule (swr : Swr) (env : Loop.Env) (w : Loop.World) (sc
       (Loop.applyOutcome w [] (cycle swr sc (Loop.inputOf env w [] false))).shards[j]? = some shj' ∧
       (Loop.statusOf shj').has h = true :=
   Loop.loop_handover_rule swr env w sc hrep hne hnc hnd hrun hr ha hsh' hgone
+
+/-- **C05, "no interval in which no shard has scraped it"** on the closed-loop model, for whole
+    histories: along every sequence of coordination cycles (any faults), scrapes, sidecar restarts
+    and discovery changes that keep the target, a discovered target that a running sidecar holds at
+    the start is held by a running sidecar in every state reached (`Loop.run_keep`; also stated as
+    `C06_never_unscraped`). -/
+theorem C05_no_gap (swr : Swr) (env : Loop.Env) (hmm : env.opt.minShard ≤ env.opt.maxShard) (h : Hash)
+    (ops : List Loop.Op) (w : Loop.World) (hops : ∀ op ∈ ops, Loop.benign h op = true)
+    (hw : Loop.WInv env w) (ha : h ∈ w.active) (hh : Loop.Held w h) :
+    Loop.Held (Loop.run swr env w ops) h :=
+  (Loop.run_keep swr env hmm h ops w hops hw ha hh).2.2
+
+/-- **C05, the hand-over rule on the sidecars' own counters — under faults, in every reachable
+    state.**  `w` is any world that meets the invariant `WInv` (freshly started sidecars do, and every
+    history of cycles with any faults, scrapes, restarts and discovery changes keeps it —
+    `C06_world_invariant`).  In a cycle with any fault pattern, `ChangeScale` working or not: a running
+    sidecar that held a discovered target and no longer holds it after the requests had scraped it
+    at least three times (the counter restarts when the target goes into transfer, C10), and another
+    sidecar that had scraped it at least three times holds it after the requests and is still
+    running after the step.  "Only then is it removed from the source." -/
+theorem C05_handover_rule_under_faults (swr : Swr) (env : Loop.Env) (w : Loop.World) (sc : Sched)
+    (F : List Loop.Fault) (b : Bool) (hw : Loop.WInv env w)
+    {i : Nat} {sh sh' : Loop.Shard} {h : Hash} {r : St} (hrun : w.running[i]? = some sh)
+    (hr : (Loop.statusOf sh).get h = some r) (ha : h ∈ w.active)
+    (hsh' : (Loop.applyOutcome w F (cycle swr sc (Loop.inputOf env w F b))).shards[i]? = some sh')
+    (hgone : (Loop.statusOf sh').has h = false) :
+    3 ≤ r.times ∧
+    ∃ (j : Nat) (shj shj' : Loop.Shard) (rj : St), j ≠ i ∧ w.running[j]? = some shj ∧
+      (Loop.statusOf shj).get h = some rj ∧ 3 ≤ rj.times ∧
+      (Loop.applyOutcome w F (cycle swr sc (Loop.inputOf env w F b))).shards[j]? = some shj' ∧
+      (Loop.statusOf shj').has h = true ∧
+      j < (Loop.cycleStep swr env w sc F b).1.replicas ∧ (Loop.cycleStep swr env w sc F b).1.shards[j]? = some shj' :=
+  Loop.step_handover_f swr env w sc F b hw.rep
+    (fun s hs => by rw [Loop.reported_keys_statusOf]; exact (Loop.ws_running hw.toWS s hs).nodup)
+    (fun s hs => (Loop.ws_running hw.toWS s hs).idle) hw.max hrun hr ha hsh' hgone
+
+/-- non-vacuity: the pending hand-over of the example (source 5 scrapes, destination 4) is not
+    completed, one more scrape on the destination and it is — even though the update to the
+    destination is lost in that cycle -/
+def exHand : Loop.World :=
+  { shards := [⟨{ targets := [⟨1, 10, 10, .inTransfer, 1⟩], status := [(1, { health := .good, series := 10, total := 10, state := .inTransfer, times := 5 })],
+                   idleAt := none }, 7⟩,
+               ⟨{ targets := [⟨1, 10, 10, .normal, 1⟩], status := [(1, { health := .good, series := 10, total := 10, state := .normal, times := 2 })],
+                   idleAt := none }, 6⟩],
+    replicas := 2, active := [1], explore := [] }
+def exHandEnv : Loop.Env := { opt := ⟨0, 1000, 5, 1, false, true⟩, maxIdle := 3 }
+
+example : ((Loop.run (fun x r => x * r / 10) exHandEnv exHand [.cycle {} [] false]).shards.map
+      fun sh => (Loop.statusOf sh).map fun p => (p.1, p.2.state)) = [[(1, .inTransfer)], [(1, .normal)]] ∧
+    ((Loop.run (fun x r => x * r / 10) exHandEnv exHand
+        [.cycle {} [] false, .scrape 1 1 (some (10, 10)), .cycle {} [{}, ⟨false, false, false, false, true⟩] false]).shards.map
+      fun sh => (Loop.statusOf sh).map fun p => (p.1, p.2.state)) = [[], [(1, .normal)]] := by
+  decide
 
 end Kvass.Props.C05
